@@ -17,7 +17,9 @@ EXPLANATION = (
     "and ArgGroup::args only on the !group.multiple edge; gather_group_direct_conflicts returns the group's conflicts. "
     "R3.5 exemptions only as documented: every missing_required.push in validate_required is control-dependent on "
     "!is_exclusive_present (and for graph requirements on !is_missing_required_ok), nothing else suppresses it; "
-    "is_exclusive_present is computed over explicitly present args. R3.6 conditional requirements: the field name states the "
+    "is_exclusive_present is computed over explicitly present args. R3.5b validate_exclusive counts ALL explicitly present arguments (its filter consults nothing but check_explicit and "
+    "Command::find) and returns early exactly when that count is <= 1. R3.8 (shared with C07 R7.4) presence records are only "
+    "removed for overridden arguments (or replaced by the argument's own new occurrence). R3.6 conditional requirements: the field name states the "
     "quantifier (Arg::r_ifs / r_unless = any, r_ifs_all / r_unless_all = all); in validate_required every `required = true` is "
     "guarded by the matching test (check_explicit(other, Equals(val)) inside the r_ifs loop; all(r_ifs_all) && !is_empty; "
     "fails_arg_required_unless), the candidates are the arguments NOT explicitly present, and fails_arg_required_unless returns "
@@ -312,3 +314,18 @@ def run(ctx):
         res.check(not bg, "R3.7", "collects-every-relevant", c.where(), "every relevant requirement of a visited arg is collected", "requirements are collected only under %s" % bg)
     res.check(bool(cont) and all(any(re.match(r"^F:is_empty\(.*\.requires\)$", g) for g in guard_strs(ur, c.bb)) for c in cont), "R3.7", "transitive", ur.where(),
               "requirements that require something are visited too", "unroll_arg_requires no longer follows requirements transitively (or under a different condition)")
+
+
+    # ---- R3.5b exclusive: alone-ness is counted over all explicitly present args
+    for c in ve.calls_to(r"Iterator>?::count$"):
+        flt = [f_ for f_ in ve.calls_to(r"Iterator::filter$") if expr(ve, c.args[0]) == "filter(%s,%s)" % (expr(ve, f_.args[0]), expr(ve, f_.args[1]))]
+        preds = sorted(set(cc.callee_q.rsplit("::", 2)[-2] + "::" + cc.callee_q.rsplit("::", 1)[1] for f_ in flt for cb in closure_bodies(fx, f_) for t in tree(cb) for cc in t.calls()
+                           if cc.callee_q and cc.callee_q.startswith("clap_builder::") and not sp_macro(cc.sp)))
+        res.check(bool(flt) and preds == ["Command::find", "MatchedArg::check_explicit"], "R3.5", "exclusive-count-over-all-explicit", c.where(), "count over explicitly present arguments (no further predicate)",
+                  "validate_exclusive counts only a subset of the present arguments (filter consults %s): some combinations with an exclusive argument are no longer counted" % preds)
+    early = [i for i, j, s_ in ve.stmts() if s_["k"] == "assign" and s_["place"] == 0 and s_["rv"]["k"] == "agg" and s_["rv"].get("variant") == "Ok"]
+    res.check(bool(early) and all(any(o == "Le" and b_ == "1" and a.startswith("count(") for (o, a, b_) in cmp_facts(ve, i)) for i in early), "R3.5", "exclusive-early-return-threshold", ve.where(),
+              "early Ok exactly when at most one argument is present", "validate_exclusive returns early under %s" % [sorted(cmp_facts(ve, i)) for i in early])
+    # ---- R3.8 presence records only removed for overridden args
+    from rules.c07 import removal_census
+    removal_census(fx, res, "R3.8")
